@@ -41,6 +41,7 @@ func init() {
 		"Or":          zzOr,
 		"Not":         zzNot,
 		"Implies":     zzImplies,
+		"Bind":        zzBind,
 		"IteInt":      zzIte,
 		"IteStr":      zzIte,
 		"Go":          zzGo,
@@ -321,6 +322,19 @@ func zzOr(fr *frame, args []value) value {
 func zzNot(fr *frame, args []value) value {
 	_, _, a := boolVal(args[0])
 	return mkBoolV(tNot(a))
+}
+
+// Bind names a boolean term: a fresh constant defined equal to it (keeps
+// shared sub-formulas from being duplicated in later terms).
+func zzBind(fr *frame, args []value) value {
+	m := fr.m
+	_, isConc, term := boolVal(args[0])
+	if isConc || len(term) < 64 {
+		return args[0]
+	}
+	n := m.freshAux("bind", sBool)
+	m.assume("(= " + n + " " + term + ")")
+	return mkBool(n)
 }
 
 func zzImplies(fr *frame, args []value) value {
